@@ -1,10 +1,14 @@
 package msg
 
 import (
+	"bytes"
 	"encoding/json"
 	"fmt"
+	"io"
 	"math"
+	"strconv"
 	"strings"
+	"testing/iotest"
 	"time"
 
 	sse "github.com/tmaxmax/go-sse"
@@ -98,24 +102,34 @@ func expected(ms []MsgSpec, strict bool) []ref.Event {
 }
 
 func checkSequence(k *collector, ms []MsgSpec) {
-	k.cases.Add(1)
 	var wire strings.Builder
 	for _, m := range ms {
 		wire.WriteString(m.Build().String())
 	}
-	w := wire.String()
+	checkWire(k, ms, wire.String(), nil, ms)
+}
+
+// checkWire decodes a wire text with the strict reference and with sse.Read (through rd, if given, so that
+// the parser sees the text in pieces) and compares both with what the messages ms must decode to. All
+// events are judged only after the whole stream has been read: a decoded event must stay what it was.
+func checkWire(k *collector, ms []MsgSpec, w string, rd func(string) io.Reader, replay any) bool {
+	k.cases.Add(1)
 	wantStrict := expected(ms, true)
 	if len(wantStrict) > 0 {
 		k.nontriv.Add(1)
 	}
 	got := ref.Interpret(w, ref.Mode{Strict: true})
 	if v := diffEvents(got.Events, wantStrict); v != "" || got.UnterminatedTail {
-		k.fail("C02: a spec-conforming parser decodes something else than what was appended", fmt.Sprintf("messages %+v encode to %q; strict WHATWG interpretation: %s (unterminated tail: %v)", ms, w, v, got.UnterminatedTail), ms)
-		return
+		k.fail("C02: a spec-conforming parser decodes something else than what was appended", fmt.Sprintf("messages %s encode to %s; strict WHATWG interpretation: %s (unterminated tail: %v)", short(fmt.Sprintf("%+v", ms)), short(fmt.Sprintf("%q", w)), v, got.UnterminatedTail), replay)
+		return false
+	}
+	var src io.Reader = strings.NewReader(w)
+	if rd != nil {
+		src = rd(w)
 	}
 	var own []ref.Event
 	var rerr error
-	sse.Read(strings.NewReader(w), nil)(func(e sse.Event, err error) bool {
+	sse.Read(src, nil)(func(e sse.Event, err error) bool {
 		if err != nil {
 			rerr = err
 			return false
@@ -124,7 +138,139 @@ func checkSequence(k *collector, ms []MsgSpec) {
 		return true
 	})
 	if v := diffEvents(own, expected(ms, false)); v != "" || rerr != nil {
-		k.fail("C02: sse.Read decodes something else than what was appended", fmt.Sprintf("messages %+v encode to %q; sse.Read: %s (error %v)", ms, w, v, rerr), ms)
+		k.fail("C02: sse.Read decodes something else than what was appended", fmt.Sprintf("messages %s encode to %s; sse.Read: %s (error %v)", short(fmt.Sprintf("%+v", ms)), short(fmt.Sprintf("%q", w)), v, rerr), replay)
+		return false
+	}
+	return true
+}
+
+func short(s string) string {
+	if len(s) > 600 {
+		return s[:300] + " ... " + s[len(s)-200:]
+	}
+	return s
+}
+
+// LongCase is a stream made of a few messages under test followed by Fill plain messages without ID and
+// type (so the ID of the last message under test stays the stream's last event ID to the end), read through
+// the named reader. Long enough streams make the parser's input buffer fill up, shift and grow while
+// earlier events are still held by the caller.
+type LongCase struct {
+	Head   []MsgSpec `json:"head"`
+	Pad    int       `json:"pad"`
+	Fill   int       `json:"fill"`
+	Reader string    `json:"reader"`
+}
+
+var longReaders = map[string]func(string) io.Reader{
+	"whole":   func(s string) io.Reader { return strings.NewReader(s) },
+	"onebyte": func(s string) io.Reader { return iotest.OneByteReader(strings.NewReader(s)) },
+	"chunk61": func(s string) io.Reader { return &chunkReader{s: s, n: 61} },
+}
+
+type chunkReader struct {
+	s string
+	n int
+}
+
+func (c *chunkReader) Read(p []byte) (int, error) {
+	if len(c.s) == 0 {
+		return 0, io.EOF
+	}
+	n := min(c.n, len(p), len(c.s))
+	copy(p, c.s[:n])
+	c.s = c.s[n:]
+	return n, nil
+}
+
+func (lc LongCase) specs() []MsgSpec {
+	ms := append([]MsgSpec{}, lc.Head...)
+	if lc.Pad > 0 {
+		ms = append(ms, MsgSpec{Calls: []Call{{"data", []string{strings.Repeat("p", lc.Pad)}}}})
+	}
+	for i := 0; i < lc.Fill; i++ {
+		ms = append(ms, MsgSpec{Calls: []Call{{"data", []string{"filler payload number " + strconv.Itoa(i)}}}})
+	}
+	return ms
+}
+
+func checkLong(k *collector, lc LongCase) {
+	ms := lc.specs()
+	var wire strings.Builder
+	for _, m := range ms {
+		wire.WriteString(m.Build().String())
+	}
+	checkWire(k, ms, wire.String(), longReaders[lc.Reader], lc)
+}
+
+// Hist is a history of operations on ONE Message value (op codes index histOps). The message is encoded at the
+// end only (and where the history says so), so that state kept between encodings is exercised too.
+type Hist struct {
+	Ops []uint8 `json:"ops"`
+}
+
+var histOps = []string{"AppendData(a\rb)", "AppendData(\"\", c)", "AppendComment(n)", "ID=i<step>", "Type=t<step>", "Retry=<step>ms",
+	"String()", "MarshalText()", "WriteTo(buffer)", "UnmarshalText(event u<step>)", "continue on Clone()"}
+
+func (h Hist) String() string {
+	var ss []string
+	for _, o := range h.Ops {
+		ss = append(ss, histOps[o])
+	}
+	return "[" + strings.Join(ss, "; ") + "]"
+}
+
+func checkHist(k *collector, h Hist) {
+	m := &sse.Message{}
+	var model MsgSpec
+	for step, o := range h.Ops {
+		x := strconv.Itoa(step)
+		switch o {
+		case 0:
+			m.AppendData("a\rb")
+			model.Calls = append(model.Calls[:len(model.Calls):len(model.Calls)], Call{"data", []string{"a\rb"}})
+		case 1:
+			m.AppendData("", "c")
+			model.Calls = append(model.Calls[:len(model.Calls):len(model.Calls)], Call{"data", []string{"", "c"}})
+		case 2:
+			m.AppendComment("n")
+			model.Calls = append(model.Calls[:len(model.Calls):len(model.Calls)], Call{"comment", []string{"n"}})
+		case 3:
+			m.ID = sse.ID("i" + x)
+			model.ID, model.HasID = "i"+x, true
+		case 4:
+			m.Type = sse.Type("t" + x)
+			model.Type, model.HasType = "t"+x, true
+		case 5:
+			m.Retry = time.Duration(step+1) * time.Millisecond
+			model.Retry = int64(m.Retry)
+		case 6:
+			_ = m.String()
+		case 7:
+			_, _ = m.MarshalText()
+		case 8:
+			var b bytes.Buffer
+			_, _ = m.WriteTo(&b)
+		case 9:
+			// a relay decoding the next event into the message it reuses: everything is overwritten
+			if err := m.UnmarshalText([]byte("id: u" + x + "\ndata: du" + x + "\n: cu\nevent: tu\nretry: 7\ndata: dv\n\n")); err != nil {
+				k.fail("C02: UnmarshalText rejects a well-formed event", fmt.Sprintf("history %s: %v", h, err), h)
+				return
+			}
+			model = MsgSpec{Calls: []Call{{"data", []string{"du" + x}}, {"comment", []string{"cu"}}, {"data", []string{"dv"}}}, ID: "u" + x, HasID: true, Type: "tu", HasType: true, Retry: int64(7 * time.Millisecond)}
+		case 10:
+			m = m.Clone()
+		}
+	}
+	// the message, between two plain neighbours, on one stream
+	plain := MsgSpec{Calls: []Call{{"data", []string{"p"}}}, ID: "n", HasID: true, Type: "t", HasType: true}
+	w := plain.Build().String() + m.String() + plain.Build().String()
+	if checkWire(k, []MsgSpec{plain, model, plain}, w, nil, h) {
+		// the retry field is not part of ref.Event: compare it on the wire
+		wantRetry := model.Retry >= int64(time.Millisecond)
+		if got := strings.Contains(m.String(), "retry: "+strconv.FormatInt(model.Retry/int64(time.Millisecond), 10)+"\n"); got != wantRetry {
+			k.fail("C02: the retry field on the wire is not the one set", fmt.Sprintf("history %s: message encodes to %q, Retry set to %v", h, m.String(), time.Duration(model.Retry)), h)
+		}
 	}
 }
 
@@ -171,7 +317,13 @@ func init() {
 		var ms []MsgSpec
 		var cs []Call
 		var str string
+		var lc LongCase
+		var h Hist
 		switch {
+		case json.Unmarshal(raw, &lc) == nil && lc.Reader != "":
+			checkLong(k, lc)
+		case json.Unmarshal(raw, &h) == nil && len(h.Ops) > 0:
+			checkHist(k, h)
 		case json.Unmarshal(raw, &ms) == nil && len(ms) > 0 && (len(ms[0].Calls) > 0 || ms[0].HasID || ms[0].HasType):
 			checkSequence(k, ms)
 		case json.Unmarshal(raw, &cs) == nil && len(cs) > 0:
@@ -294,10 +446,51 @@ var C02 = &sqrun.Check{ID: "C02", QuickBudget: 60, ThoroughBudget: 600,
 			}
 			checkSequence(k, seq)
 		})
+		// (5) long streams: every representative message (and ordered pair) followed by 0..maxPad padding bytes and
+		// enough plain messages to cycle the parser's input buffer several times, through three kinds of reader
+		var longs []LongCase
+		maxPad, fill := 48, 400
+		if c.Thorough {
+			maxPad, fill = 128, 3000
+		}
+		for _, rd := range []string{"whole", "onebyte", "chunk61"} {
+			for i := range set {
+				for pad := 0; pad <= maxPad; pad++ {
+					longs = append(longs, LongCase{Head: []MsgSpec{set[i]}, Pad: pad, Fill: fill, Reader: rd})
+				}
+				for j := range set {
+					longs = append(longs, LongCase{Head: []MsgSpec{set[i], set[j]}, Fill: fill, Reader: rd})
+				}
+			}
+		}
+		k.parallel(len(longs), func(i int) { checkLong(k, longs[i]) })
+		// (6) histories of operations on one Message value, encodings, UnmarshalText and Clone included
+		hdepth := 5
+		if c.Thorough {
+			hdepth = 7
+		}
+		var hists int64
+		nh := len(histOps)
+		for d := 1; d <= hdepth && k.exhaustive(); d++ {
+			total := 1
+			for i := 0; i < d; i++ {
+				total *= nh
+			}
+			hists += int64(total)
+			k.parallel(total, func(i int) {
+				ops := make([]uint8, d)
+				for j := range ops {
+					ops[j] = uint8(i % nh)
+					i /= nh
+				}
+				checkHist(k, Hist{Ops: ops})
+			})
+		}
 		cov := ev.Coverage{"evaluations": k.cases.Load(), "distinct_nontrivial": k.nontriv.Load(), "exhaustive": k.exhaustive(),
+			"long_streams": len(longs), "one_message_histories": hists, "history_depth": hdepth,
 			"payload_strings": len(payloads), "field_strings": len(fields), "call_alphabet": nc, "message_set": ns,
 			"samples": []any{MsgSpec{Calls: []Call{{"data", []string{"a\rb", "id: z"}}}, ID: "x", HasID: true}, []MsgSpec{set[3], set[10]}},
-			"rule":    fmt.Sprintf("(1) every string of <= %d tokens over %q as data, comment, ID and type (where NewID/NewType accept it), alone and between plain neighbours; (2) every program of <= %d calls over a %d-call alphabet (AppendData with one/two arguments, AppendComment) on a 12-string representative set; (3) ID x Type over all %d single-line strings of <= 2 tokens x 7 Retry values; (4) every ordered pair (thorough: triple) of %d representative messages, concatenated. Each wire text is decoded by the strict WHATWG reference and by sse.Read and compared with the expectation computed from the API calls (independent line splitter). Non-trivial = the expectation contains at least one event.", L, c02Tokens, depth, nc, nf, ns)}
+			"rule":    fmt.Sprintf("(1) every string of <= %d tokens over %q as data, comment, ID and type (where NewID/NewType accept it), alone and between plain neighbours; (2) every program of <= %d calls over a %d-call alphabet (AppendData with one/two arguments, AppendComment) on a 12-string representative set; (3) ID x Type over all %d single-line strings of <= 2 tokens x 7 Retry values; (4) every ordered pair (thorough: triple) of %d representative messages, concatenated; (5) every representative message and ordered pair followed by 0..%d padding bytes and %d plain messages (streams long enough to make the parser's buffer fill, shift and grow), read whole, byte by byte and in 61-byte chunks, all events compared after the stream has ended; (6) every history of <= %d operations from %q on ONE Message value, the result encoded between two plain neighbours. Each wire text is decoded by the strict WHATWG reference and by sse.Read and compared with the expectation computed from the API calls (independent line splitter). Non-trivial = the expectation contains at least one event.", L, c02Tokens, depth, nc, nf, ns, maxPad, fill, hdepth, histOps)}
 		return &sqrun.Outcome{Level: "exploration", Coverage: cov, Assumptions: []string{
 			"an ID containing NUL is encoded as given and ignored by conforming parsers (the rest of the event must be intact); this is the protocol's rule, not counted as 'ID altered'",
 			"go-sse's own parser dispatches an event also for a message that only sets an ID or a type (documented adaptation); the strict reference only for messages with data",
